@@ -527,7 +527,7 @@ func (e *Engine) strToBytes(st *State, s string, to types.Type) Val {
 	m := e.heapTerm(st, name, sortM)
 	ln := sx("gs.len", s)
 	e.heapSet(st, name, sortM, r, sx("store", m, r, sx("gs.arr", s)))
-	return Val{K: KSlice, Typ: to, Fs: []Val{intv(r), intv("0"), intv(ln), intv(ln)}}
+	return Val{K: KSlice, Typ: to, Fs: []Val{intv(r), intv("0"), intv(ln), intv(ln)}, Fresh: true}
 }
 
 // ---- interfaces ----
